@@ -1507,3 +1507,173 @@ Proof.
   change (Str ".bitproto") with (chr 46 :: Str "bitproto").
   rewrite last_dot_cut_app by reflexivity. rewrite H. reflexivity.
 Qed.
+
+(* ======================================================================================== *)
+(* Part 6: the identifiers declared for a whole schema                                      *)
+(* ======================================================================================== *)
+
+(* Go and Python output does not depend on option c.name_prefix at all *)
+Lemma decl_idents_prefix_irrelevant : forall l opt p q, lang_eqb l LC = false ->
+  forall d encl, decl_idents l opt p encl d = decl_idents l opt q encl d.
+Proof.
+  intros l opt p q Hl. fix IH 1. intros [n|n t|n ms|n nested fields] encl; cbn [decl_idents].
+  - rewrite (prefix_ignored_elsewhere l KConstant p encl n Hl),
+            (prefix_ignored_elsewhere l KConstant q encl n Hl). reflexivity.
+  - rewrite (prefix_ignored_elsewhere l KAlias p encl n Hl),
+            (prefix_ignored_elsewhere l KAlias q encl n Hl). reflexivity.
+  - rewrite (prefix_ignored_elsewhere l KEnum p encl n Hl),
+            (prefix_ignored_elsewhere l KEnum q encl n Hl). f_equal.
+    apply map_ext. intros m.
+    rewrite (prefix_ignored_elsewhere l KEnumField p encl m Hl),
+            (prefix_ignored_elsewhere l KEnumField q encl m Hl). reflexivity.
+  - rewrite (prefix_ignored_elsewhere l KMessage p encl n Hl),
+            (prefix_ignored_elsewhere l KMessage q encl n Hl). f_equal.
+    induction nested as [|d ds IHds]; [reflexivity|]. cbn [flat_map]. rewrite (IH d (encl ++ [n])), IHds. reflexivity.
+Qed.
+
+Theorem proto_idents_prefix_irrelevant : forall l opt p q ds, lang_eqb l LC = false ->
+  proto_idents l opt {| p_prefix := p; p_decls := ds |} =
+  proto_idents l opt {| p_prefix := q; p_decls := ds |}.
+Proof.
+  intros l opt p q ds Hl. unfold proto_idents. cbn [p_prefix p_decls].
+  induction ds as [|d r IH]; [reflexivity|]. cbn [flat_map].
+  rewrite (decl_idents_prefix_irrelevant l opt p q Hl d []), IH. reflexivity.
+Qed.
+
+(* C: the member names of all structs, in order, do not depend on the prefix *)
+Definition is_field_ident (i : ident) : bool := match fst i with IField _ => true | _ => false end.
+Definition field_names_of (ids : list ident) : list str := map snd (filter is_field_ident ids).
+
+Lemma field_names_of_app a b : field_names_of (a ++ b) = field_names_of a ++ field_names_of b.
+Proof. unfold field_names_of. rewrite filter_app, map_app. reflexivity. Qed.
+
+Lemma field_names_of_none : forall ids, forallb (fun i => negb (is_field_ident i)) ids = true ->
+  field_names_of ids = [].
+Proof.
+  induction ids as [|i r IH]; [reflexivity|]. cbn [forallb]. intros H.
+  apply andb_true_iff in H. destruct H as [Hi Hr]. unfold field_names_of in *. cbn [filter].
+  apply negb_true_iff in Hi. rewrite Hi. apply IH, Hr.
+Qed.
+
+Lemma field_names_of_fields : forall l owner fields,
+  field_names_of (flat_map (field_idents l owner) fields) = map (fun f => field_name l (f_name f)) fields.
+Proof.
+  intros l owner. induction fields as [|f r IH]; [reflexivity|]. cbn [flat_map map].
+  rewrite field_names_of_app, IH. f_equal. unfold field_idents.
+  rewrite !field_names_of_app. cbn [field_names_of filter map is_field_ident fst snd app].
+  rewrite (field_names_of_none (match type_ref l (f_type f) with Some t => _ | None => [] end))
+    by (destruct (type_ref l (f_type f)); reflexivity).
+  rewrite (field_names_of_none (match l with LGo => _ | _ => [] end)) by (destruct l; reflexivity).
+  reflexivity.
+Qed.
+
+Lemma no_fields_flat_map : forall {A} (g : A -> list ident) xs,
+  (forall x, forallb (fun i => negb (is_field_ident i)) (g x) = true) ->
+  forallb (fun i => negb (is_field_ident i)) (flat_map g xs) = true.
+Proof.
+  intros A g xs H. induction xs as [|x r IH]; [reflexivity|]. cbn [flat_map]. rewrite forallb_app, H, IH. reflexivity.
+Qed.
+
+Lemma field_names_message : forall l opt n fields,
+  field_names_of (message_idents l opt n fields) = map (fun f => field_name l (f_name f)) fields.
+Proof.
+  intros l opt n fields. unfold message_idents. rewrite field_names_of_app, field_names_of_fields.
+  rewrite field_names_of_none; [reflexivity|].
+  destruct l; [|reflexivity|reflexivity]. rewrite forallb_app. cbn [forallb is_field_ident fst negb andb].
+  destruct opt; [reflexivity|]. rewrite forallb_app. cbn [forallb is_field_ident fst negb andb].
+  apply no_fields_flat_map. intros f. destruct (is_array (f_type f)); reflexivity.
+Qed.
+
+Lemma fn_const : forall l opt p encl n, field_names_of (decl_idents l opt p encl (DConst n)) = [].
+Proof. intros [] opt p encl n; reflexivity. Qed.
+
+Lemma fn_alias : forall l opt p encl n t, field_names_of (decl_idents l opt p encl (DAlias n t)) = [].
+Proof.
+  intros l opt p encl n t. cbn [decl_idents]. apply field_names_of_none. rewrite forallb_app.
+  apply andb_true_iff. split; [|destruct (type_ref l t); reflexivity].
+  destruct l; [|reflexivity|reflexivity]. destruct opt; [reflexivity|]. destruct (is_array t); reflexivity.
+Qed.
+
+Lemma fn_enum : forall l opt p encl n ms, field_names_of (decl_idents l opt p encl (DEnum n ms)) = [].
+Proof.
+  intros l opt p encl n ms. cbn [decl_idents]. apply field_names_of_none. rewrite forallb_app.
+  apply andb_true_iff. split; [destruct l; reflexivity|].
+  rewrite forallb_map. apply forallb_forall. intros m _. destruct l; reflexivity.
+Qed.
+
+Lemma decl_field_names_prefix_irrelevant : forall l opt p q d encl,
+  field_names_of (decl_idents l opt p encl d) = field_names_of (decl_idents l opt q encl d).
+Proof.
+  intros l opt p q. fix IH 1. intros [n|n t|n ms|n nested fields] encl.
+  - rewrite !fn_const. reflexivity.
+  - rewrite !fn_alias. reflexivity.
+  - rewrite !fn_enum. reflexivity.
+  - cbn [decl_idents]. rewrite !field_names_of_app, !field_names_message. f_equal.
+    induction nested as [|d ds IHds]; [reflexivity|]. cbn [flat_map].
+    rewrite !field_names_of_app, (IH d (encl ++ [n])), IHds. reflexivity.
+Qed.
+
+Theorem proto_field_names_prefix_irrelevant : forall l opt p q ds,
+  field_names_of (proto_idents l opt {| p_prefix := p; p_decls := ds |}) =
+  field_names_of (proto_idents l opt {| p_prefix := q; p_decls := ds |}).
+Proof.
+  intros l opt p q ds. unfold proto_idents. cbn [p_prefix p_decls].
+  induction ds as [|d r IH]; [reflexivity|]. cbn [flat_map]. rewrite !field_names_of_app, IH.
+  rewrite (decl_field_names_prefix_irrelevant l opt p q d []). reflexivity.
+Qed.
+
+(* ---- API names ------------------------------------------------------------------------------- *)
+
+Theorem api_names : forall n,
+  (* C *)
+  c_encode_fn n = Str "Encode" ++ n /\ c_decode_fn n = Str "Decode" ++ n /\
+  c_json_fn n = Str "Json" ++ n /\
+  size_const LC n = Str "BYTES_LENGTH_" ++ upper_case (snake_case n) /\
+  (* Go *)
+  size_const LGo n = Str "BYTES_LENGTH_" ++ upper_case (snake_case n) /\
+  (Str go_encode_method, Str go_decode_method, Str go_size_method) = (Str "Encode", Str "Decode", Str "Size") /\
+  (* Python *)
+  size_const LPy n = Str "BYTES_LENGTH" /\
+  (Str py_encode_method, Str py_decode_method, Str py_to_json_method, Str py_to_dict_method) =
+  (Str "encode", Str "decode", Str "to_json", Str "to_dict").
+Proof. intros n. repeat split. Qed.
+
+Theorem api_names_declared : forall n fields,
+  (forall opt, In (IFunc, Str "Encode" ++ n) (message_idents LC opt n fields) /\
+               In (IFunc, Str "Decode" ++ n) (message_idents LC opt n fields) /\
+               In (IMacro, size_const LC n) (message_idents LC opt n fields) /\
+               In (IStruct, n) (message_idents LC opt n fields)) /\
+  In (IFunc, Str "Json" ++ n) (message_idents LC false n fields) /\
+  (forall opt, In (IMethod n, Str "Encode") (message_idents LGo opt n fields) /\
+               In (IMethod n, Str "Decode") (message_idents LGo opt n fields) /\
+               In (IMethod n, Str "Size") (message_idents LGo opt n fields) /\
+               In (IConst, size_const LGo n) (message_idents LGo opt n fields) /\
+               In (IType, n) (message_idents LGo opt n fields)) /\
+  (forall opt, In (IMethod n, Str "encode") (message_idents LPy opt n fields) /\
+               In (IMethod n, Str "decode") (message_idents LPy opt n fields) /\
+               In (IAttr n, Str "BYTES_LENGTH") (message_idents LPy opt n fields) /\
+               In (IClass, n) (message_idents LPy opt n fields)).
+Proof.
+  intros n fields. unfold message_idents.
+  split; [|split; [|split]].
+  - intros opt. repeat split; apply in_or_app; left; apply in_or_app; left; cbn [In]; tauto.
+  - apply in_or_app; left; apply in_or_app; right. cbn [app In]. tauto.
+  - intros opt. repeat split; apply in_or_app; left; cbn [In]; tauto.
+  - intros opt. repeat split; apply in_or_app; left; cbn [In]; tauto.
+Qed.
+
+Theorem out_file_constants :
+  (out_suffix, ext_c_h, ext_c_c, ext_go, ext_py) = ("_bp", ".h", ".c", ".go", ".py")%string.
+Proof. reflexivity. Qed.
+
+(* a definition imported from another proto is qualified by the import name in Go and
+   Python when it is a top-level definition of that proto, never in C *)
+Theorem cross_proto_reference : forall l k p encl n alias,
+  ref_name l k p encl n true (Some alias) =
+  (if supports_import l then alias ++ Str "." ++ def_name l k p encl n else def_name l k p encl n) /\
+  ref_name l k p encl n false (Some alias) = def_name l k p encl n /\
+  (forall b, ref_name l k p encl n b None = def_name l k p encl n) /\
+  (supports_import LC, supports_import LGo, supports_import LPy) = (false, true, true).
+Proof.
+  intros l k p encl n alias. unfold ref_name. repeat split; destruct l; reflexivity.
+Qed.
